@@ -31,6 +31,7 @@ type Profile struct {
 	PStr        float64
 	POnce       float64 // probability that a rule gets a bare method-call action (no Forget) and retracts itself
 	PDep        float64 // probability that an assignment targets a location some condition reads
+	OneHeavy    bool    // the program holds exactly one counted atom F.Heavy(<path>), shared by its rules (C13)
 }
 
 var profiles = map[string]*Profile{
@@ -44,6 +45,8 @@ var profiles = map[string]*Profile{
 		Saliences: []int64{-1, 0, 1}, MaxActs: 2, PTrueish: 0.8},
 	"memo": {Name: "memo", PDep: 0.7, MinRules: 2, MaxRules: 5, UseTop: true, DynSel: 0.2, PMethod: 0.5, PRetract: 0.1, PComplete: 0.02,
 		PSetter: 0.15, PHeavy: 0.6, Saliences: []int64{-1, 0, 0, 1}, MaxActs: 3, PTrueish: 0.3},
+	"memo13": {Name: "memo13", PDep: 0.6, MinRules: 2, MaxRules: 5, UseTop: true, DynSel: 0.3, PMethod: 0.4, PRetract: 0.1, PComplete: 0.02,
+		PSetter: 0.1, PHeavy: 1, OneHeavy: true, Saliences: []int64{-1, 0, 0, 1}, MaxActs: 3, PTrueish: 0.3, POnce: 0.1},
 	"fault": {Name: "fault", PDep: 0.5, MinRules: 2, MaxRules: 4, UseTop: true, DynSel: 0.4, PMethod: 0.3, PFault: 0.35, PRetract: 0.15, PComplete: 0.05,
 		Saliences: []int64{-1, 0, 0, 1}, MaxActs: 3, PTrueish: 0.4, POnce: 0.2},
 	"fetch": {Name: "fetch", MinRules: 2, MaxRules: 6, UseTop: true, DynSel: 0.2, PMethod: 0.3, PFault: 0.15, PRetract: 0.1, PComplete: 0.05,
@@ -132,6 +135,9 @@ func (g *Gen) methodInt(d int) (Expr, bool) {
 	case 2:
 		return &Call{Recv: P("F"), Fn: "Sum", Args: []Expr{g.exactInt(d - 1), g.exactInt(d - 1)}}, true
 	case 3:
+		if g.p.OneHeavy {
+			return g.heavy, true
+		}
 		return &Call{Recv: P("F"), Fn: "Heavy", Args: []Expr{g.exactInt(d - 1)}}, true
 	default:
 		return &Call{Recv: P([]string{"F.S", "F.T", "F.P.S"}[g.pick(3)]), Fn: "Len"}, false
@@ -369,7 +375,7 @@ func (g *Gen) Program() *Program {
 		g.names = append(g.names, fmt.Sprintf("R%d", i))
 	}
 	g.heavy, g.sharedB = nil, nil
-	if g.chance(g.p.PHeavy) {
+	if g.chance(g.p.PHeavy) || g.p.OneHeavy {
 		ls := g.intLocs()
 		l := ls[g.pick(len(ls))]
 		g.heavy = &Call{Recv: P("F"), Fn: "Heavy", Args: []Expr{mkExact(g.locPath(l), l.exact)}}
